@@ -269,6 +269,13 @@ func serveTCPSocket(conn *net.TCPConn, addr *net.TCPAddr, inbound chan<- Service
 			return
 		}
 
+		// The total length covers the header itself; a smaller value cannot be framed (a value
+		// of 0 would never consume anything and spin on the same header for ever).
+		if totalLen < 6 {
+			util.Log(conn, "Error during header inspection: total length %d is too small", totalLen)
+			return
+		}
+
 		buffer := make([]byte, totalLen)
 		len, err := io.ReadFull(connBuffer, buffer)
 		if err != nil {
